@@ -82,7 +82,9 @@ HtlcRec(line) ==
            ELSE [hash |-> "", amt |-> 0]
   IN [hash |-> line.hash, cls |-> cls, key |-> IF cls = "tramp" THEN v.hash ELSE line.hash,
       inv |-> line.inv, A |-> IF cls = "tramp" THEN AmountOf(line, v) ELSE 0,
-      amt |-> line.amt, total |-> line.total, exp |-> line.exp, rel |-> line.rel,
+      \* (without total_msat the onion's forward_msat is what the sender declares for the whole payment)
+      amt |-> line.amt, total |-> IF line.total # 0 THEN line.total ELSE IF line.fwd_amt # 0 THEN line.fwd_amt ELSE line.amt,
+      exp |-> line.exp, rel |-> line.rel,
       ord |-> 0, fb |-> FALSE, st |-> "unsent", resp |-> NoResp]
 
 CallsAfter(line, base) ==
@@ -124,6 +126,10 @@ C10payee(line) == \A k \in Items(line, "notify") :
    LET o == line.out[k] IN
    o.inv >= 1 /\ o.inv <= Len(runinfo.invs) /\ o.payee = runinfo.invs[o.inv].payee /\ o.hash = runinfo.invs[o.inv].hash
 
+\* C10: the invoice handed to pay is, character for character, an invoice an HTLC of the run carried (index 0 = a
+\* string the harness never put into any HTLC, e.g. a re-encoding that nobody signed)
+C10text == \A c \in PayIss : c.inv # 0
+
 \* every pay request carries the configured retry time and nothing unexpected
 PayShape(line) == \A c \in {CallRec(line.out[k]) : k \in Items(line, "issue")} :
    c.kind = "pay" => c.retry = cfg.retry /\ ~c.other /\ (cfg.xpay => ~c.label /\ ~c.risk)
@@ -161,7 +167,7 @@ Judged(line) ==
   [C01 |-> C01, C02 |-> C02, C03 |-> C03, C04 |-> C04, C05 |-> C05,
    C06 |-> C06once /\ C06nopanic /\ C06wellformed /\ C06codes(line),
    C07 |-> C07, C08 |-> C08, C11 |-> C11, C12 |-> C12 /\ C12bytes(line),
-   C13 |-> C13 /\ C13payload(line), C10 |-> C10hint /\ C10payee(line) /\ C13, AUDIT |-> Audit, C15 |-> C15, C16 |-> C16, PAYSHAPE |-> PayShape(line), NOTIFY |-> NotifyOK(line)]
+   C13 |-> C13 /\ C13payload(line), C10 |-> C10hint /\ C10payee(line) /\ C13 /\ C10text, AUDIT |-> Audit, C15 |-> C15, C16 |-> C16, PAYSHAPE |-> PayShape(line), NOTIFY |-> NotifyOK(line)]
 
 Violated(line) == LET j == Judged(line) IN {p \in DOMAIN j : ~j[p]}
 
